@@ -126,7 +126,7 @@ class NodeLib(LibBase):
         if cls == "Sink":
             f.update({"stats.num_item_received": ("num", "int"), "stats.total_cycle_time": ("num", "real"),
                       "in_edge_events": ("list", EV), "chosen_event": ("opt", EV), "item_in_process": ("opt", IT),
-                      "buffertime": ("num", "int")})
+                      "buffertime": ("num", "int"), "item_list": ("opaque",)})
         return f
 
     def initial_state(self, cls, fname, con):
